@@ -52,17 +52,36 @@ def run(ck, F):
     if b is None:
         ck.undecided("R2", "collector", "-", "collect_namespaces_on_node not found")
     else:
-        nb = Hh.norm_body(b)
-        fors = [x for x in Hh.exprs(nb["value"]) if x.get("k") == "For"]
-        ok = len(fors) == 1 and Hh.describe(fors[0]["iter"]).replace(" ", "") in ("node.namespaces()",)
-        calls = [x for x in Hh.exprs(nb["value"]) if x.get("k") == "MethodCall" and x["name"] == "add_namespace_reference"]
+        # every registration call with its loop / condition context (loops, iterator chains and if-let alike)
+        regs = []
         exits = []
-        if fors:
-            C02._find_exits(fors[0]["body"], exits, False)
-        if ok and len(calls) == 1 and not exits and "ns.uri()" in Hh.describe(calls[0]) and "abbreviation" in Hh.describe(calls[0]):
-            ck.ok("R2", "every-declaration", Hh.sp(fors[0]), "every named in-scope namespace declaration is registered (prefix, uri)")
+
+        def cb(e, env, ctx):
+            if e.get("k") == "MethodCall" and e["name"] == "add_namespace_reference":
+                W = og.NF(F)
+                regs.append((e, [og.NF(F).nf(a, env) for a in e["args"]], ctx))
+            if e.get("k") in ("Ret", "Break") or (e.get("k") == "MethodCall" and e["name"] in ("take", "skip", "step_by", "take_while", "skip_while", "nth", "last", "next")):
+                exits.append(e)
+        og.EnvWalker(F).walk_fn(b["path"], cb)
+        ok = False
+        why = f"{len(regs)} registration call(s), {len(exits)} early exit(s)"
+        if len(regs) == 1 and not exits:
+            e, args, ctx = regs[0]
+            stars = [c for c in ctx if c[0] == "star"]
+            alts = [c for c in ctx if c[0] == "alt"]
+            if len(stars) == 1 and og.nf_str(stars[0][1]) == "namespaces(node)":
+                el = ("elem", stars[0][1])
+                name = ("call", "name", (el,))
+                shape_ok = len(args) == 2 and _same_call(args[0], ("payload", "Some", None), "name", el) and _is_call_on(args[1], "uri", el)
+                conds_ok = all(c[2] is True and c[1][0] == "islet" and c[1][1].startswith("Some(") and _is_call_on(c[1][2], "name", el) for c in alts)
+                ok = shape_ok and conds_ok
+                why = f"arguments {[og.nf_str(a) for a in args]} under {[og.nf_str(c[1]) for c in alts]}"
+            else:
+                why = f"registration is not inside exactly one loop over node.namespaces(): {[og.nf_str(c[1]) for c in stars]}"
+        if ok:
+            ck.ok("R2", "every-declaration", Hh.sp(regs[0][0]), "every named in-scope namespace declaration is registered (prefix, uri)")
         else:
-            ck.violation("R2", "every-declaration", b["span"], "collect_namespaces_on_node does not register every in-scope (prefix, uri) pair")
+            ck.violation("R2", "every-declaration", b["span"], f"collect_namespaces_on_node does not register every in-scope (prefix, uri) pair ({why})")
     ins = []
     W = og.EnvWalker(F)
 
@@ -276,3 +295,13 @@ def _mentions_kind(F, fb):
                     if a.get("k") == "const" and a.get("str") in ("element", "complexType", "simpleType", "schema", "attribute", "group"):
                         out.add(f"tag {a['str']}")
     return sorted(out)
+
+
+def _is_call_on(nf, method, recv):
+    """nf is `recv.method()` (resolved path ends with the method name)"""
+    return isinstance(nf, tuple) and nf[0] == "call" and str(nf[1]).rsplit("::", 1)[-1] == method and len(nf[2]) >= 1 and nf[2][0] == recv
+
+
+def _same_call(nf, wrapper, method, recv):
+    """nf is the Some-payload of `recv.method()`"""
+    return isinstance(nf, tuple) and nf[0] == "payload" and nf[1] == "Some" and _is_call_on(nf[2], method, recv)
